@@ -16,7 +16,7 @@
                                smoothing lengths k, x_hdd_beta / x_cdd_beta the slope magnitudes
      off_corner c tc           the guard: NOT (bp_h' = bp_c' >= T_max with a non-zero slope); there the kernel's
                                regime switch evaluates the heating branch on both sides (finding C11-F1, D16)   *)
-From Coq Require Import Reals Lra List PrimFloat.
+From Coq Require Import Reals Lra List PrimFloat String Permutation.
 From V Require Import Model.Num Model.NumR Model.NumF Model.DailyCurve Proofs.DailyCurveProofs.
 Import ListNotations.
 Local Open Scope R_scope.
